@@ -294,6 +294,7 @@ fn run_schedule(prog: &Value, schedule: &[usize], path: &str, pinout: Option<&st
         Some((d[0].as_u64()? as usize, d[1].as_str()?.to_string()))
     }).collect()).unwrap_or_default();
     let mut script_pos = 0usize;
+    let fine_points: Vec<String> = prog["points"].as_array().map(|a| a.iter().filter_map(|x| x.as_str().map(String::from)).collect()).unwrap_or_default();
     let mut choices = Vec::new();
     let mut parked_at: Vec<&'static str> = Vec::new();   // where the previously run thread stands at each decision
     let mut pos = 0;
@@ -335,7 +336,15 @@ fn run_schedule(prog: &Value, schedule: &[usize], path: &str, pinout: Option<&st
         pos += 1;
         if prev == Some(pick) { streak += 1; } else { streak = 0; }
         prev = Some(pick);
-        match feoxdb::verif::sched::step(ids[pick], Duration::from_millis(if all_blocked_rounds > 0 { 4000 } else { 700 })) {
+        let step_to = Duration::from_millis(if all_blocked_rounds > 0 { 4000 } else { 700 });
+        let mut arrived = feoxdb::verif::sched::step(ids[pick], step_to);
+        // the fine-grained points inside the ordered-index updates are decision points only for the
+        // programs that name them; everywhere else the thread walks straight through
+        while let Some(name) = arrived {
+            if !(name.starts_with("tree_") && !fine_points.iter().any(|x| x == name)) { break; }
+            arrived = feoxdb::verif::sched::step(ids[pick], step_to);
+        }
+        match arrived {
             None => { alive[pick] = false; for b in blocked.iter_mut() { *b = false; } }
             // the thread is blocked on a lock or channel that a parked thread owns: run the others
             Some("<stall>") => { blocked[pick] = true; }
